@@ -89,6 +89,34 @@ def adjustments(R, rep):
             okm = "S122" in txt and any(a.endswith(".ticker") for a in args) and any(a.endswith(".date") for a in args)
             rep.ob("R2", "capreturn:error-text", okm, "the refusal names the ticker and date and cites TCGA92 s122" if okm else
                    f"error text `{txt[:80]}` with args {args[:4]} lacks ticker/date/S122", pre.loc(), key="R2:capreturn:error-text")
+    # R2b: the lots whose cost makes up the guard's basis are the lots that receive the adjustment (held > 0 in both)
+    basis_fn = None
+    if len(cr) == 1:
+        for cond, val, s_ in guards_of(pre, tb, cr[0][0]):
+            if isinstance(cond, tuple) and cond[0] == "cmp":
+                for side in (cond[2], cond[3]):
+                    if isinstance(side, tuple) and side[0] == "call" and "AcquisitionLedger::" in side[1] and side[1] in F.bodies:
+                        basis_fn = F.bodies[side[1]]
+    if basis_fn is not None and appo in F.bodies:
+        def held_pred(b):
+            """comparison operators applied to held_for_adjustment(..) vs ZERO in b and its closures"""
+            ops = set()
+            for x in [b] + [F.bodies[c] for c in F.children(b.id)]:
+                xt = Terms(F, x, inline_depth=0)
+                conds = [xt.operand(x.term(s_)["discr"]) for s_ in x.reachable() if x.term(s_)["k"] == "switch"] + [xt.local(0)]
+                for cnd in conds:
+                    for y in subterms(cnd):
+                        if isinstance(y, tuple) and y and y[0] == "cmp" and y[3] == ("const", "Decimal::ZERO") and \
+                                any(isinstance(z, tuple) and z and z[0] == "call" and "held" in z[1] for z in subterms(y[2])):
+                            ops.add(y[1])
+            return ops
+        pb, pa = held_pred(basis_fn), held_pred(F.bodies[appo])
+        ok = pb == {"Gt"} and "Gt" in pa
+        rep.ob("R2", "capreturn:basis-lots=adjusted-lots", ok,
+               "the guard's basis counts exactly the lots with shares still held (> 0), the same lots that receive the adjustment" if ok else
+               f"the guard's basis selects lots with held {sorted(pb)} 0 but the adjustment is spread over lots with held {sorted(pa)} 0: "
+               "cost of fully-sold lots can absorb a return on paper and a held lot goes negative",
+               basis_fn.loc(), key="R2:capreturn:basis-predicate")
     return appo
 
 
